@@ -53,6 +53,7 @@ fn eq_ops(ctx: &Ctx, x: &[u8], y: &[u8], px: Place, py: Place, judge: bool) -> O
     match r {
         Ok(None) => None,
         Ok(Some((op, exp, obs))) => Some(eq_viol(ctx, op, x, y, px, py, exp, &obs)),
+        Err(_) if ctx.prop == "C05" => None,
         Err(p) => Some(eq_viol(ctx, "panic", x, y, px, py, false, &format!("panic: {}", panic_msg(&p)))),
     }
 }
@@ -63,7 +64,7 @@ fn content(i: usize, salt: usize) -> u8 {
 
 pub fn eq_exhaustive(ctx: &Ctx) -> Frag {
     let mut frag = ctx.frag("eq-exhaustive");
-    let judge = ctx.prop != "C05";
+    let judge = ctx.prop != "C05" && ctx.prop != "C14";
     let max_len = if ctx.thorough { 160 } else { 96 };
     let na = if ctx.thorough { 16 } else { 8 };
     let max_pair = if ctx.thorough { 64 } else { 40 };
@@ -179,7 +180,7 @@ pub fn eq_exhaustive(ctx: &Ctx) -> Frag {
 pub fn eq_pbt(ctx: &Ctx) -> Frag {
     let frag = ctx.frag("eq-proptest");
     let cases = ctx.n(100_000, 2_000_000) as u32;
-    let judge = ctx.prop != "C05";
+    let judge = ctx.prop != "C05" && ctx.prop != "C14";
     let strat = (
         prop::collection::vec(any::<u8>(), 0..=600),
         0u32..65536,
